@@ -20,7 +20,7 @@ from ..common import *
 ERR = object()
 SKIPPED = object()
 
-STRINGS = ['', 'a', 'abc', 'Hello World', 'héllo', 'ÀÉÎ', 'ß', 'straße', 'a%20b', '%41%42', 'a+b', '100%', '%zz', '%C3%A9', '%E9', 'x-y-z', 'arn:aws:s3:::bucket',
+STRINGS = ['', 'a', 'abc', 'Hello World', 'héllo', 'ÀÉÎ', 'ß', 'straße', 'École', 'ΑΘΗΝΑ', 'MAñANA', 'привет', 'ÉCOLE Normale', 'a%20b', '%41%42', 'a+b', '100%', '%zz', '%C3%A9', '%E9', 'x-y-z', 'arn:aws:s3:::bucket',
            '12', '-7', '+3', '007', '1.5', 'abc12', 'true', 'TRUE', 'False', 'yes', '2024-01-01T00:00:00Z', '2024-01-01T00:00:00+05:30', 'not a date', '{"a": [1, 2]}',
            '[1, "x", null]', '{"a": ', '9223372036854775807', '9223372036854775808', 'ǆ', 'İ']
 OTHERS = [0, 5, -3, 9, 8, 1, 10, -1, 2.5, -1.5, -0.25, -2.0, -7.9, 0.99, 1e10, True, False, None, [], ['a', 'b'], {'k': 'v'}, ['a', 1],
@@ -159,7 +159,8 @@ def single_value_cases(ctx, thorough):
                 cases.append((fn, v, ex, exp))
     if not thorough:
         # every function on every non-string value and on the numeric-looking strings always; a seeded sample of the rest
-        core = [c for c in cases if not isinstance(c[1], str) or re.fullmatch(r'[+-]?[0-9.]+', c[1]) or (c[0] == 'substring' and min(c[2]) < 0)]
+        core = [c for c in cases if not isinstance(c[1], str) or re.fullmatch(r'[+-]?[0-9.]+', c[1]) or (c[0] == 'substring' and min(c[2]) < 0)
+                or (c[0] in ('to_upper', 'to_lower') and any(ord(ch) > 127 for ch in c[1]))]       # case mapping beyond ASCII: always
         rest = [c for c in cases if c not in core]
         rng.shuffle(rest)
         cases = core + rest[:max(0, 600 - len(core))]
